@@ -50,22 +50,38 @@ def select (query : Option Str) (tags : Option (List Str)) (env : List Param) : 
 
 /-! ## literal rendering -/
 
+/-- Python `s.replace(c, r)` for a one-character pattern `c`. -/
+def replaceChar (c : Char) (r : Str) (s : Str) : Str := s.flatMap (fun x => if x = c then r else [x])
+
+/-- how a back-end writes a quote inside a string literal: `\"` (and `\\`) or `""` -/
+inductive Quoting | backslash | doubled
+  deriving DecidableEq, Repr
+
+/-- the body of a string literal, statement by statement:
+    C / C++ / Rust `str(value).replace("\\","\\\\").replace("\"","\\\"")`, Fortran `str(value).replace("\"","\"\"")`. -/
+def escStr : Quoting → Str → Str
+  | .backslash, v => replaceChar '"' ['\\', '"'] (replaceChar '\\' ['\\', '\\'] v)
+  | .doubled, v => replaceChar '"' ['"', '"'] v
+
+def quoteStr (q : Quoting) (v : Str) : Str := '"' :: escStr q v ++ ['"']
+
 structure Style where
   opn : Str
   cls : Str
   tru : Str
   fls : Str
+  q : Quoting
 
-def styleC : Style := ⟨['{'], ['}'], cs!"true", cs!"false"⟩
-def styleRust : Style := ⟨['['], [']'], cs!"true", cs!"false"⟩
-def styleFortran : Style := ⟨[], [], cs!".true.", cs!".false."⟩
+def styleC : Style := ⟨['{'], ['}'], cs!"true", cs!"false", .backslash⟩
+def styleRust : Style := ⟨['['], [']'], cs!"true", cs!"false", .backslash⟩
+def styleFortran : Style := ⟨[], [], cs!".true.", cs!".false.", .doubled⟩
 
-/-- `_parse_scalar` (C, C++, Rust, Fortran differ only in the boolean words). -/
+/-- `_parse_scalar` (C, C++, Rust, Fortran differ in the boolean words and the string escapes). -/
 def printScalar (st : Style) : Scalar → Str
   | .b v => if v then st.tru else st.fls
   | .i v => showInt v
   | .f t => t
-  | .s v => '"' :: v ++ ['"']
+  | .s v => quoteStr st.q v
 
 mutual
 /-- `_parse_array` / `_parse_value` text part. -/
@@ -127,7 +143,7 @@ def lineConst (backend kw : Str) (ren : Bool) (p : Param) : Option Str := do
 /-- `parse_define` for scalar parameters (arrays would print a Python list repr: outside the model). -/
 def lineDefine (ren : Bool) (p : Param) : Option Str :=
   match p.value with
-  | .leaf (.s v) => some (cs!"#define " ++ rename ren p.name ++ [' '] ++ ('"' :: v ++ ['"']))
+  | .leaf (.s v) => some (cs!"#define " ++ rename ren p.name ++ [' '] ++ quoteStr .backslash v)
   | .leaf (.b v) => some (cs!"#define " ++ rename ren p.name ++ [' '] ++ (if v then ['1'] else ['0']))
   | .leaf (.i v) => some (cs!"#define " ++ rename ren p.name ++ [' '] ++ showInt v)
   | .leaf (.f t) => some (cs!"#define " ++ rename ren p.name ++ [' '] ++ t)
@@ -192,6 +208,8 @@ def lineFortran (ren : Bool) (p : Param) : Option Str := do
   let sh ← shapeOf p.value
   let value := printVal styleFortran p.value
   let dtype ← fortranType p value
+  -- string arrays: constructor with an explicit type (elements may differ in length)
+  let value := if p.value.isArr ∧ p.kind = Kind.str then dtype ++ cs!" :: " ++ value else value
   let name := rename ren p.name
   if ¬ p.value.isArr then
     some (cs!"  " ++ dtype ++ cs!", parameter :: " ++ name ++ cs!" = " ++ value ++ [';'])
@@ -210,8 +228,13 @@ def exportFortran (modname : Str) (ren : Bool) (data : List Param) : Option Str 
 
 /-! ## Bash (`Format.VALUE`: plain Python values) -/
 
+/-- `for symbol in ["\\", "\"", "$", "`"]: value = value.replace(symbol, "\\"+symbol)` -/
+def bashEsc (v : Str) : Str :=
+  replaceChar '`' ['\\', '`'] (replaceChar '$' ['\\', '$'] (replaceChar '"' ['\\', '"']
+    (replaceChar '\\' ['\\', '\\'] v)))
+
 def bashScalar : Scalar → Str
-  | .s v => '"' :: v ++ ['"']
+  | .s v => '"' :: bashEsc v ++ ['"']
   | .b v => if v then ['0'] else ['-', '1']
   | .i v => showInt v
   | .f t => t
@@ -233,7 +256,7 @@ end
 
 def bashWord (v : Val) : Str :=
   match v with
-  | .leaf (.s x) => '"' :: x ++ ['"']                    -- strings are quoted once
+  | .leaf (.s x) => bashScalar (.s x)                    -- strings are quoted once
   | .leaf s => '"' :: bashScalar s ++ ['"']
   | .arr _ => []
 
@@ -254,16 +277,40 @@ def exportBash (exp : Bool) (ren : Bool) (data : List Param) : Option Str := do
   let body ← data.mapM (lineBash exp ren)
   some (joinWith ['\n'] body.flatten)
 
-/-! ## DIP text (`ExportConfig.parse`) — scalars; arrays are outside what the code handles -/
+/-! ## DIP text (`ExportConfig.parse`, `_parse_dip_scalar`, `_parse_dip_array`) -/
+
+/-- one character of a string element of an array value: `json.dumps` then `\"`, `\\` and `'`
+    rewritten as unicode escapes (printable ASCII: `json.dumps` escapes nothing else) -/
+def dipElemChar (c : Char) : Str :=
+  if c = '"' then cs!"\\u0022" else if c = '\\' then cs!"\\u005c" else if c = '\'' then cs!"\\u0027" else [c]
+
+def dipScalar (element : Bool) : Scalar → Str
+  | .s v => if element then '"' :: v.flatMap dipElemChar ++ ['"']
+            else '"' :: replaceChar '"' ['\\', '"'] (replaceChar '\'' ['\\', '\''] v) ++ ['"']
+  | .b v => if v then cs!"true" else cs!"false"
+  | .i v => showInt v
+  | .f t => t
+
+mutual
+/-- `_parse_dip_array` : `"[" + ",".join(strings) + "]"` -/
+def dipArray : Val → Str
+  | .leaf s => dipScalar true s
+  | .arr vs => ['['] ++ dipArrayList vs ++ [']']
+def dipArrayList : List Val → Str
+  | [] => []
+  | [v] => dipArray v
+  | v :: w :: vs => dipArray v ++ [','] ++ dipArrayList (w :: vs)
+end
 
 def lineDip (p : Param) : Option Str := do
-  let dtype ← lookupType bDip p.kind p.bits
-  let value ← match p.value with
-    | .leaf (.s v) => some ('"' :: v ++ ['"'])
-    | .leaf (.b v) => some (if v then cs!"true" else cs!"false")
-    | .leaf (.i v) => some (showInt v)
-    | .leaf (.f t) => some t
-    | .arr _ => none
+  let base ← lookupType bDip p.kind p.bits
+  let (dtype, value) ← match p.value with
+    | .leaf s => some (base, dipScalar false s)
+    | .arr _ => do
+      let sh ← shapeOf p.value                     -- `np.shape(param.value)` (rectangular values)
+      let txt := dipArray p.value
+      some (base ++ ['['] ++ commaNats sh ++ [']'],
+            if p.kind = Kind.str then ['\''] ++ txt ++ ['\''] else txt)
   match p.unit with
   | some u => some (p.name ++ [' '] ++ dtype ++ cs!" = " ++ value ++ [' '] ++ u)
   | none => some (p.name ++ [' '] ++ dtype ++ cs!" = " ++ value)
